@@ -65,6 +65,21 @@ CHECKS = {
          "Random hostile request sequences over the whole repo-level vocabulary (incl. RPC-mirrored delete/rename) with duplicate / malformed / foreign arguments; after every request the server's own JSON is checked for single root, acyclicity, mirrored links, unique UUIDs and version ids, committed parents, linear named branches, and rejected requests are checked to leave graph, heads and uuid resolution untouched.",
          "Branch-head and uuid resolution are observed through a 'whoami' key of a keyvalue instance; only newly introduced conditions are attributed to a request; repeated merge parents (a mirrored multi-edge) are counted as observation, not violation.", "3/C07"),
 }
+# sentences appended to the level text: layers added in the second round (see DESIGN.md sections 0.2b and 8)
+ADDENDA = {
+ "C02": "Stability histories include neuronjson schema documents and, every second history, a workload restricted to two or three data types.",
+ "C03": "Every second history is a short-burst, few-type history with two to four restarts; one directed history moves the master head off its line of versions (newversion on a merge node).",
+ "C04": "Query lists of the snapshots are frozen by a first census pass; a sample of crash points is followed by a second crash at every write of the recovery start-up, each started from a copy of the crashed directory; the two zero-length-memtable states Badger's own file handling can leave are planted and must be recovered from.",
+ "C05": "A bulk phase deletes ranges of exactly M of N keys for (N, M) around multiples of the store's 1000-key delete batch.",
+ "C06": "One scenario re-creates an instance name while the old instance's asynchronous wipe is held open by the wrapping engine.",
+ "C07": "Caller-assigned uuids include over-long hexadecimal strings and an existing uuid extended by hex digits (prefix ambiguity).",
+ "C08": "Every second sequence restarts the server before the final sweep and sweeps leaves first; some intermediate versions are committed without ever being read or written.",
+ "C10": "World-split cases cut one sparse volume over several blocks at negative block coordinates with dvid.RLEs.Partition and compare the per-block splits with the voxel-wise split of the world.",
+ "C11": "Version races run on master parents and on committed named-branch parents (newversion vs branch <own name>).",
+ "C15": "A stored layer inspects what keyvalue instances of every Compression x Checksum setting physically store per write route (envelope checksum kind, round trip, altered stored bytes read back over HTTP).",
+ "C19": "Full copies are also requested at versions that deleted keys written again later; every fourth history copies without repeating the source's settings; every second history restarts the server after the copies and compares every copy again.",
+ "C20": "The model-based mixed workload (well-formed by construction) runs under the same panic / liveness monitors; scenario probes replay well-formed request sequences that once hung or panicked; a request that outlives the watchdog is a violation only when the goroutine dump shows it parked for minutes with no goroutine left that could wake it (quiescence oracle), otherwise inconclusive.",
+}
 NOT_BUILT = "check not built yet in this round (machinery in progress); see DESIGN.md section 3"
 ALL = ["C%02d" % i for i in range(1, 21)]
 NA = {}
@@ -89,6 +104,8 @@ m = {
 for pid in ALL:
     if pid in CHECKS:
         level, tech, text, note, ref = CHECKS[pid]
+        if pid in ADDENDA:
+            text = text.rstrip() + " " + ADDENDA[pid]
         m["checks"].append({
             "property_id": pid,
             "quick_cmd": "/verif/bin/%s --tier quick" % pid.lower(),
